@@ -324,6 +324,12 @@ class StorageEnv:
                     res.append("texts:" + ",".join(canon(x) for x in storage))
                 elif op[0] == "flush":
                     storage.flush(); res.append("ok")
+                elif op[0] == "close":
+                    # close() touches nothing that is shared: one step of the process (model: Op.close)
+                    self.sched.visible("close")
+                    storage.close()
+                    self.sched.record("close")
+                    res.append("ok")
                 elif op[0] == "enter":
                     res.append("ok" if storage.__enter__() is storage else "enter-returned-other")
                 elif op[0] == "exit":
